@@ -47,6 +47,11 @@ C14_CONSTRUCTS = {
     "dict-of-lists": 'd = {"a": [1, 2], "b": [3]}\nprint! d["a"][1]\n',
     "tuple-nested-unpack": "((a, b), c) = ((1, 2), 3)\nprint! a + b + c\n",
     "str-interp-in-loop": 'for! 0..<2, i =>\n    print! "i=\\{i}"\n',
+    # a method call whose argument is the deepest thing in the function (LOAD_METHOD leaves two values where the receiver was)
+    "method-call-with-closure-arg": "set_plus1! x =\n    x.update!((_: Nat) -> x + 1)\n\ny = !0\nset_plus1! y\nprint! y\n",
+    # operators the generator has no instruction for: a FeatureError is printed, compilation "succeeds" and a placeholder opcode is written
+    "shift-left": "x = 1\ny = x << 2\nprint! y\n",
+    "shift-right": "x = 8\ny = x >> 2\nprint! y\n",
     "line-far-apart": "x = 1\n" + "\n" * 300 + "print! x\n",           # line delta > 127 (and > 255)
     "many-blank-lines-in-function": "f!() =\n    a = 1\n" + "\n" * 140 + "    print! a\nf!()\n",
 }
